@@ -1,5 +1,5 @@
 PROP = dict(
-        pkg="c04", level="property_based",
+        pkg="c04", level="exploration",
         rule="C04: the same program over the same values presented as ZSON, ZJSON, VNG and ZNG (compression, frame size, end-of-stream positions, threads, read size) gives the same output",
         assumptions=[
             "the ZSON run is the reference (its reader has no scanner pushdown); an encoding whose reader does not give the generated input back unchanged is left out of the case (format round-trip defects belong to C01-C03; -0.0, non-finite floats, non-NFC strings and IPv6 map values starting with '::' are kept out of the inputs for that reason)",
